@@ -420,17 +420,32 @@ def run_impl_unique(repo_root, cases):
     os.chdir(repo_root)
     try:
         from validation.schema_validator import SchemaValidator
+        from validation import obj_specs, pipeline_obj_specs
+        root = obj_specs.root_object["properties"]
         out = []
         for c in cases:
-            values = {"type": "object"}
-            if c["obj_spec_name"]:
-                values["obj_spec_name"] = c["obj_spec_name"]
+            # the repository's own spec of the domain (the implementation consults the item spec to find out which
+            # unique fields are references); the constraint data is checked against DOMAINS by check_domains
+            name = c["domain"]
+            if name in root:
+                real = root[name]
+            elif name == "connections":
+                real = obj_specs.schema_import["properties"]["connections"]
+            elif name == "attributes":
+                real = obj_specs.object_type["properties"]["attributes"]
+            else:
+                real = pipeline_obj_specs.pipeline["properties"]["traverse"]
             cons = {"unique": list(c["unique"])}
             if c["unique_composites"]:
                 cons["unique_composites"] = [list(p) for p in c["unique_composites"]]
-            obj_spec = {"type": "array", "values": values, "constraints": cons}
+            obj_spec = {"type": "array", "values": real["values"], "constraints": cons}
             try:
                 v = SchemaValidator()
+                # a schema without entities: no reference resolves, so reference-typed unique fields are compared as
+                # written.  (Normalisation of reference spelling belongs to the reference layer, which the scenario
+                # model represents by abstract (kind, id) references and the whole-validator runs exercise.)
+                v.schema = {"parties": [], "object_types": [], "object_promises": [], "actions": [], "checkpoints": [],
+                            "thread_groups": [], "pipelines": [], "imports": [], "imported_schemas": {}}
                 items = copy.deepcopy(c["items"])
                 # _bypass_validation_of_object: identity with a checkpoint the validator generated itself
                 v._generated_checkpoints = [items[i] for i in c["generated"]]
